@@ -136,9 +136,12 @@ func init() {
 		// closes, and the caller's options are the same before, at every receive and after
 		scenarios = append(scenarios, scenario{
 			Name: "S3c-" + el.name, Class: "S3c:LatestAnchor-options-untouched|Add:" + el.name,
-			Mode: explore.SleepSets, Initial: 0b1011,
+			// the graph holds two temporal predicate ids, so that lookups by subject or object deliver two results: the
+			// consumer looks at the options after the first one, while the driver is parked on the second send (plain
+			// code that follows the LAST send runs before the next scheduling point and cannot be interleaved here)
+			Mode: explore.SleepSets, Hedge: true, Initial: 0b11011,
 			Body: func(h *hctx, c int) {
-				_, g := freshGraph(0b1011)
+				_, g := freshGraph(0b11011)
 				h.spawnUpdate(0, g, "add", 0b0100)
 				el.spawn(h, g, el.name+"/latest", optionsFor("latest"), c, false, false)
 			}})
